@@ -39,24 +39,105 @@ invariant('Sensor', 'C19/series_aligned_and_within_capacity',
           'len(self.data[self._probes[0]]) <= self._data_capacity')
 S_INVS = {n: t for n, t, s in SPECS.invariants['Sensor']}
 
+# L0(s): common length of the per-probe series; DROP: 1 iff this measurement pushes the series beyond the capacity
+specfn('series_len', ['s'], 'len(s.data[s._probes[0]])')
+specfn('overflows', ['s'], 'series_len(s) + 1 > s._data_capacity')
+SERIES = 'self.data[self._probes[j]]'
+FAMILY = 'self.data[*][]'          # every per-probe series (the lists that are values of self.data)
+
+# effect of one measurement on the stored series, relative to the state at function entry
+COLLECT_POST = {
+    'one_probe_call_per_probe_in_probe_order':
+        'trace_len() >= old(trace_len()) + len(self._probes) and '
+        'all(trace_kind(old(trace_len()) + j) == fn_id("probe") and '
+        '    trace_recv(old(trace_len()) + j) is self._probes[j] for j in range(len(self._probes)))',
+    'last_sense_is_a_new_list_of_the_values_in_probe_order':
+        'fresh(self._last_sense) and len(self._last_sense) == len(self._probes) and g_ok',
+    'new_value_at_the_back_of_every_series':
+        f'all(len({SERIES}) == ite(old(overflows(self)), old(series_len(self)), old(series_len(self)) + 1) and '
+        f'    {SERIES}[len({SERIES}) - 1] == self._last_sense[j] for j in range(len(self._probes)))',
+    'earlier_values_kept_in_order_oldest_dropped_beyond_capacity':
+        f'all({SERIES}[i] == old({SERIES}[i + ite(overflows(self), 1, 0)]) '
+        f'    for j in range(len(self._probes)) for i in range(len({SERIES}) - 1))',
+    'probes_and_callbacks_untouched':
+        'self._probes is old(self._probes) and seq(self._probes) == old(seq(self._probes)) and '
+        'self._on_sense is old(self._on_sense) and seq(self._on_sense) == old(seq(self._on_sense)) and '
+        'self.data is old(self.data) and dmap(self.data) == old(dmap(self.data))',
+}
+# g_v: the value returned by the probe call of this iteration; g_ok: every stored value is that value
+ghost_after('Sensor._collect_data', '<entry>', g_ok='True')
+ghost_after('Sensor._collect_data', 'new_data = p.probe()', g_v='new_data',
+            g_ok='g_ok and trace_kind(trace_len() - 1) == fn_id("probe") and trace_recv(trace_len() - 1) is p')
+ghost_after('Sensor._collect_data', 'self._last_sense.append(new_data)',
+            g_ok='g_ok and self._last_sense[-1] == g_v and self.data[p][-1] == g_v')
+
 contract('Sensor._collect_data', props=['C19'], args={},
-         ensures={
-             'one_probe_call_per_probe_in_order':
-                 'trace_len() == old(trace_len()) + len(self._probes) and '
-                 'all(trace_kind(old(trace_len()) + j) == fn_id("probe") and '
-                 '    trace_recv(old(trace_len()) + j) is self._probes[j] for j in range(len(self._probes)))',
-             'last_sense_is_new_list_in_probe_order':
-                 'fresh(self._last_sense) and len(self._last_sense) == len(self._probes)',
-             'newest_value_at_the_back_of_each_series':
-                 'all(len(self.data[self._probes[j]]) > 0 and '
-                 '    self.data[self._probes[j]][len(self.data[self._probes[j]]) - 1] == self._last_sense[j] '
-                 '    for j in range(len(self._probes)))',
-             'keeps_most_recent_up_to_capacity':
-                 'all(len(self.data[p]) == ite(old(len(self.data[self._probes[0]])) + 1 > self._data_capacity, '
-                 '                             old(len(self.data[self._probes[0]])), old(len(self.data[self._probes[0]])) + 1) '
-                 '    for p in self._probes)',
-         })
+         ensures=dict(COLLECT_POST, exactly_the_probe_calls='trace_len() == old(trace_len()) + len(self._probes)'),
+         modifies=['self._last_sense', FAMILY, '$trace'])
+S_STRUCT = {n: t for n, t in S_INVS.items() if 'aligned' not in n and n in
+            ('containers_exist', 'every_probe_has_a_series', 'series_are_separate_lists')}
 loop('Sensor._collect_data', 1, 'for p in self._probes',
-     {'x': 'True'}, modifies=['self._last_sense[]', '$trace'], index='k')
+     dict(S_STRUCT,
+          values_so_far='fresh(self._last_sense) and len(self._last_sense) == k and g_ok',
+          measured_series_one_longer=
+              f'all(len({SERIES}) == old(series_len(self)) + ite(j < k, 1, 0) for j in range(len(self._probes))) and '
+              f'all({SERIES}[old(series_len(self))] == self._last_sense[j] for j in range(k))',
+          earlier_values_kept=
+              f'all({SERIES}[i] == old({SERIES}[i]) for j in range(len(self._probes)) for i in range(old(series_len(self))))',
+          probe_calls='trace_len() == old(trace_len()) + k and '
+                      'all(trace_kind(old(trace_len()) + j) == fn_id("probe") and '
+                      '    trace_recv(old(trace_len()) + j) is self._probes[j] for j in range(k))'),
+     modifies=[FAMILY, 'self._last_sense[]', '$trace'], index='k')
 loop('Sensor._collect_data', 2, 'for p in self._probes',
-     {'x': 'True'}, modifies=[], index='k')
+     dict(S_STRUCT,
+          trimmed_prefix=
+              f'all(len({SERIES}) == old(series_len(self)) + ite(j < k, 0, 1) and '
+              f'    {SERIES}[len({SERIES}) - 1] == self._last_sense[j] for j in range(len(self._probes)))',
+          shifted_by_one=
+              f'all({SERIES}[i] == old({SERIES}[i + ite(j < k, 1, 0)]) '
+              f'    for j in range(len(self._probes)) for i in range(len({SERIES}) - 1))'),
+     modifies=[FAMILY], index='k')
+
+
+# --------------------------------------------------------------------------- registration of callbacks
+contract('Sensor.add_on_sense_callback', props=['C19'], args={'callback': 'clo'},
+         raises={'TypeError': ('callback is None', {'bad_callback_changes_nothing': '@frame:'})},
+         ensures={'appended_at_the_back':
+                      'len(self._on_sense) == old(len(self._on_sense)) + 1 and self._on_sense[-1] == callback',
+                  'earlier_callbacks_keep_their_place':
+                      'all(self._on_sense[j] == old(self._on_sense[j]) for j in range(old(len(self._on_sense))))',
+                  'nothing_called': 'trace_len() == old(trace_len())'},
+         modifies=['self._on_sense[]'])
+
+# --------------------------------------------------------------------------- Cms
+extern('Sensor.add_on_sense_callback', pure=True, always=True, params=['callback'],
+       note='C19 Sensor.add_on_sense_callback: appends the callback to the sensor\'s on-sense list')
+invariant('Cms', 'sensor_list_exists',
+          'self._sensors is not None and alive(self._sensors) and self._sensors is not self._value_history')
+invariant('Cms', 'C19/each_sensor_registered_once',
+          'all(self._sensors[i] is not self._sensors[j] for i in range(len(self._sensors)) '
+          '    for j in range(i + 1, len(self._sensors)))')
+contract('Cms.add_sensor', props=['C19'], args={'sensor': 'ref:Sensor'},
+         requires={'sensor_exists': 'sensor is not None and alive(sensor)'},
+         ensures={
+             'registered_afterwards': 'any(s is sensor for s in self._sensors)',
+             'added_at_the_back_iff_new':
+                 'len(self._sensors) == old(len(self._sensors)) + ite(old(any(s is sensor for s in self._sensors)), 0, 1) and '
+                 'all(self._sensors[j] is old(self._sensors[j]) for j in range(old(len(self._sensors)))) and '
+                 'implies(not old(any(s is sensor for s in self._sensors)), self._sensors[-1] is sensor)',
+             'callback_registered_exactly_once_iff_new':
+                 'trace_len() == old(trace_len()) + ite(old(any(s is sensor for s in self._sensors)), 0, 1) and '
+                 'implies(not old(any(s is sensor for s in self._sensors)), '
+                 '        trace_kind(old(trace_len())) == fn_id("add_on_sense_callback") and '
+                 '        trace_recv(old(trace_len())) is sensor and trace_fn(old(trace_len())) == method(self, "on_sense"))',
+         },
+         modifies=['self._sensors[]', '$trace'])
+contract('Cms.on_sense', props=['C19'], args={'sensor': 'ref:Sensor', 'time': 'real', 'data': 'list[any]'},
+         ensures={'base_class_hook_does_nothing': 'trace_len() == old(trace_len())'}, modifies=[])
+SYSTEM_EXISTS = ('System._instance is not None and alive(System._instance) and '
+                 'System._instance._assets is not None and alive(System._instance._assets) and '
+                 'not System._instance._simulation_is_initialized')
+contract('Cms.__init__', props=['C19'], invariants='prove_only', fresh_self=True,
+         args={'maintainer': 'any', 'name': 'str', 'value': 'real'},
+         requires={'system_exists': SYSTEM_EXISTS},
+         ensures={'starts_without_sensors': 'len(self._sensors) == 0 and self.maintainer == maintainer'})
